@@ -10,6 +10,7 @@ import (
 
 	"github.com/rqlite/rqlite/v10/db/wal"
 	"github.com/rqlite/rqlite/v10/internal/fsutil"
+	"github.com/rqlite/rqlite/v10/internal/vhook"
 )
 
 // RetryableError is an error that indicates whether the failed operation
@@ -164,6 +165,7 @@ func (cm *CheckpointManager) Checkpoint(w io.Writer, timeout time.Duration) (*Ch
 	}
 	recordDuration(createCompactedWALDuration, compactStartTime)
 	stats.Get(compactedWALSize).(*expvar.Int).Set(n)
+	vhook.Point("ckpt.after_compact")
 
 	/////////////////////////////////////////////////////////////////////////////////
 	// Now, attempt to perform a TRUNCATE checkpoint of the database. Close the WAL
@@ -175,6 +177,7 @@ func (cm *CheckpointManager) Checkpoint(w io.Writer, timeout time.Duration) (*Ch
 	if err != nil {
 		return nil, 0, fmt.Errorf("checkpoint: %w", err)
 	}
+	vhook.Point("ckpt.after_sqlite")
 	mmeta := &CheckpointManagerMeta{
 		CheckpointMeta: *meta,
 		WALReset:       walReset,
